@@ -33,7 +33,7 @@ RdmRoutes ==
   {"partial_trace_exact", "partial_trace_exact_tensor_normalized", "partial_trace_cluster",
    "partial_trace_compressed", "partial_trace_compressed_reduce", "make_reduced_density_matrix",
    "partial_trace_to_dense_canonical", "partial_trace_to_mpo", "peps3d_partial_trace"}
-OperatorRoutes == {"operator_trace", "operator_partial_transpose", "mpo_trace"}
+OperatorRoutes == {"operator_trace", "operator_partial_transpose", "mpo_trace", "mpo_partial_transpose"}
 NormRoutes == {"peps_compute_norm", "peps_normalize"}
 Routes == ExpectRoutes \cup RdmRoutes \cup OperatorRoutes \cup NormRoutes
 
@@ -55,7 +55,7 @@ Exercised(route, cls, n, asc, bare, nrm, thin) ==
   /\ CASE route \in {"local_expectation_canonical", "compute_local_expectation_canonical",
                      "compute_local_expectation_via_envs", "partial_trace_to_dense_canonical"} -> OneD(cls)
         [] route = "expec_TN_1D"  -> cls = "mps"                   \* (the driver has no cyclic MPO helper)
-        [] route \in {"partial_trace_to_mpo", "mpo_trace"}
+        [] route \in {"partial_trace_to_mpo", "mpo_trace", "mpo_partial_transpose"}
              -> OneD(cls) /\ asc /\ ~nrm /\ ~bare                 \* documented to keep ascending order; no normalisation option
         [] route \in {"peps_compute_local_expectation", "peps_compute_local_expectation_envs"} \cup NormRoutes
              -> cls = "peps"
@@ -96,7 +96,7 @@ Avail(route, cls, n, asc, bare, nrm, thin) ==
         [] route = "partial_trace_compressed_reduce"     -> tup /\ (cls = "peps" \/ Gen(cls)) /\ n = 2
         [] route = "make_reduced_density_matrix"         -> TRUE
         [] route = "partial_trace_to_dense_canonical"    -> cls = "mps"
-        [] route \in {"partial_trace_to_mpo", "mpo_trace"} -> TRUE
+        [] route \in {"partial_trace_to_mpo", "mpo_trace", "mpo_partial_transpose"} -> TRUE
         [] route = "peps3d_partial_trace"                -> ~thin
         [] route \in {"operator_trace", "operator_partial_transpose"} -> TRUE   \* make_reduced_density_matrix wraps a bare site
         [] route \in NormRoutes                          -> TRUE
